@@ -20,9 +20,22 @@ const vcRefused = "C17: an operation whose path crosses an in-root symbolic link
 
 // --- additional environment for the transition: the staging area ---
 
-func vcSetPermissionsByPath(path string, ownership *filesystem.OwnershipSpecification, mode filesystem.Mode) error {
-	// only ever applied to the staged file (outside the root, reached by its own path)
-	vAssert(path == "/s/t", "model: SetPermissionsByPath is applied to the staged file only")
+// os.Chmod (used by filesystem.SetPermissionsByPath on the staged file) is
+// chmod(2) by path: every component, the last one included, is followed.
+func vcOsChmod(name string, mode os.FileMode) error {
+	vNote("chmod")
+	vCover("kernel: chmod by path")
+	if e := vkEnter("chmod", true); e != 0 {
+		return e
+	}
+	r := vkAt(unix.AT_FDCWD, name, true)
+	if r.err != 0 {
+		return r.err
+	}
+	if r.node == nil {
+		return unix.ENOENT
+	}
+	r.node.perm = uint32(mode) & 0777
 	return nil
 }
 
@@ -40,7 +53,7 @@ func vcCopyBuffer(dst io.Writer, src io.Reader, buf []byte) (int64, error) { ret
 
 func vcStubTable() map[string]any {
 	m := vkStubTable()
-	m["github.com/mutagen-io/mutagen/pkg/filesystem.SetPermissionsByPath"] = vcSetPermissionsByPath
+	m["os.Chmod"] = vcOsChmod
 	m["os.Open"] = vcOsOpen
 	m["os.Remove"] = vcOsRemove
 	m["io.CopyBuffer"] = vcCopyBuffer
